@@ -110,6 +110,7 @@ public:
     }
 
     [[nodiscard]] n_keys_body_type get_n_keys() {
+        YK_VERIF(k_load, this, f_nkeys, 0);
         return n_keys_.load(std::memory_order_acquire);
     }
 
@@ -137,6 +138,7 @@ public:
                     /**
                      * The key_slice must be left direction of the index.
                      */
+                    YK_VERIF(k_load, &children.at(i), f_child, 0);
                     ret_child = children.at(i);
                     break;
                 }
@@ -145,6 +147,7 @@ public:
                 /**
                  * The key_slice must be right direction of the index.
                  */
+                YK_VERIF(k_load, &children.at(n_key), f_child, 0);
                 ret_child = children.at(n_key);
                 if (ret_child == nullptr) {
                     // SMOs have found, so retry from a root node
@@ -246,6 +249,7 @@ public:
     }
 
     void set_n_keys(const n_keys_body_type new_n_key) {
+        YK_VERIF(k_store, this, f_nkeys, 0);
         n_keys_.store(new_n_key, std::memory_order_release);
     }
 
